@@ -32,6 +32,8 @@ def _eval_assumptions(S_decl, vals):
             subs.append((z3.Bool(name), z3.BoolVal(vals[name])))
         elif d[0] == 'view':
             subs.append((z3.Int(name + '.n'), z3.IntVal(len(vals[name]))))
+        elif d[0] == 'float':
+            pass
     for a in S_decl.assumptions:
         t = a.term if isinstance(a, (sym.SBool, sym.SInt)) else a
         if t is True:
@@ -154,6 +156,9 @@ def gen_inputs(interp, shape, rng, n_samples, max_len=10, int_range=14, exhausti
                     vals[name] = rng.choice([rng.randint(-int_range, int_range), rng.randint(-3, 3), rng.randint(0, max_len)])
             elif d[0] == 'bool':
                 vals[name] = rng.random() < 0.5
+            elif d[0] == 'float':
+                vals[name] = rng.choice([0.0, -0.0, 1.5, -2.25, 3.141592653589793, 65504.0, 65520.0, 1e5, -1e5, 3.4e38, 3.5e38, -1e39, 1e300,
+                                         5e-324, 6e-8, 1e-45, float('inf'), float('-inf'), rng.uniform(-1e6, 1e6), rng.uniform(-1, 1)])
             elif d[0] == 'view':
                 n = rng.choice([L, L, rng.randint(0, max_len)])
                 if name.endswith('.raw'):
